@@ -4,7 +4,8 @@
    `edge`, `sink`, `cyclic`) and the depth-first-search model `has_cycle` are shared with C12
    (Graph/QueriesSpec.v, Graph/Queries.v); `ureach`, `degree`, `cond` are defined in Rules.v. *)
 From Coq Require Import List Bool Arith.
-From GolemV Require Import Base.Closure Graph.QueriesSpec Graph.Queries Graph.Rules Graph.RulesProofs.
+From GolemV Require Import Base.Closure Graph.QueriesSpec Graph.Queries Graph.RulesBfs Graph.Rules
+  Graph.RulesBfsProofs Graph.RulesProofs.
 Import ListNotations.
 
 (* ---------------------------------------------------------------------------------------- *)
@@ -89,7 +90,13 @@ Theorem C03_degree_pos_iff : forall g v, degree g v > 0 <-> exists w, edge g v w
 Proof. exact degree_pos_iff. Qed.
 Print Assumptions C03_degree_pos_iff.
 
-(* uses the closure completeness theorem (n-fold composition = reachability on n nodes) *)
+(* the literal model of NetworkX's breadth-first search (networkx.is_connected) returns within
+   its fuel and answers True exactly when every node is connected to the first node *)
+Theorem C03_nx_is_connected_iff : forall g, wf g -> 0 < length g ->
+  exists b, nx_is_connected g = Some b /\ (b = true <-> forall v, v < length g -> ureach g 0 v).
+Proof. exact nx_is_connected_iff. Qed.
+Print Assumptions C03_nx_is_connected_iff.
+
 Theorem C03_no_isolated_components_iff : forall g, wf g ->
   (r_no_isolated_components g = RTrue <->
      length g > 0 /\ forall u v, u < length g -> v < length g -> ureach g u v) /\
@@ -98,6 +105,8 @@ Theorem C03_no_isolated_components_iff : forall g, wf g ->
 Proof. exact no_isolated_components_iff. Qed.
 Print Assumptions C03_no_isolated_components_iff.
 
+(* closure completeness for the symmetrised graph (n-fold composition = reachability on n nodes,
+   Base/Closure.v tc_iff): what the connectivity clause of the holds_b oracle rests on *)
 Theorem C03_closure_complete : forall g, wf g -> forall x y,
   mget (tc (length g) (uadjm g)) x y = true <-> exists z, uedge g x z /\ ureach g z y.
 Proof. exact utc_iff. Qed.
